@@ -20,7 +20,7 @@ from ..poly import Poly, le, lt, eq
 from ..util import (calls_in, decorator_names, qual, has_fact, parse_expr,
                     class_methods, returns_of, raise_name, inlinable,
                     formals)
-from ..terms import Terms, reify, plain
+from ..terms import Terms, reify, plain, subterms
 
 MOD = "rig.machine_control.machine_controller"
 CLS = MOD + ":SlicedMemoryIO"
@@ -431,6 +431,33 @@ def r5_guards(program, rep):
                           construct="%s tests %s" % (wrapper, t), node=call,
                           fail="%s calls the method without having tested "
                                "%s" % (wrapper, t))
+            # ... and refuses in no other state: the methods guarded by
+            # _if_not_freed are the ROOT view's transfer functions, which
+            # every slice goes through - whether the root view itself has
+            # been closed must not matter to them (an open slice of a
+            # closed root still reads and writes; a closed root can still
+            # be freed)
+            if wrapper == "_if_not_freed":
+                extra = [(t_, p_) for t_, p_ in tfacts
+                         if t_ != chain_term("self._freed")]
+                own = [t_ for t_, p_ in extra if any(
+                    st_ == ("attr", ("param", "self"), "closed")
+                    for st_ in subterms(t_))]
+                if extra and not own:
+                    raise AnalysisError("_if_not_freed: the wrapped method "
+                                        "is reached under further tests "
+                                        "that are not read")
+                rep.check(not own, "C13-R5", "%s:%s.f_" % (MOD, wrapper),
+                          "the root's transfer functions and free() are "
+                          "refused only once the allocation is freed",
+                          construct="%s tests only the allocation" % wrapper,
+                          node=call,
+                          fail="_if_not_freed also refuses when the view it "
+                               "is called on is closed: that view is the "
+                               "root, whose transfer functions serve every "
+                               "slice - reads and writes of slices that are "
+                               "still open fail once the root view is "
+                               "closed, and a closed root cannot be freed")
             # forwards self and the arguments
             a0 = call.args[0] if call.args else None
             rep.check(a0 is not None and chain(a0) == "self" and
